@@ -117,3 +117,45 @@ impl VCursor {
             r is Ok ==> final(self).p == r->Ok_0,
     { unimplemented!() }
 }
+
+// byteorder::ReadBytesExt::{read_u8, read_u32::<LittleEndian>, read_u64::<LittleEndian>} and Read::read_exact  [rewrite R10]
+// = read_exact of 1/4/8 bytes then from_le_bytes. `le_u32`/`le_u64` make the endianness part of the contract.
+pub open spec fn le_u32(b: Seq<u8>) -> u32 { (b[0] as u32) | ((b[1] as u32) << 8) | ((b[2] as u32) << 16) | ((b[3] as u32) << 24) }
+pub uninterp spec fn le_u64(b: Seq<u8>) -> u64;
+
+#[verifier::external_body]
+pub fn vio_read_exact<S: VStream>(s: &mut S, buf: &mut [u8]) -> (r: std::io::Result<()>)
+    requires old(s).wf(),
+    ensures final(s).wf(), final(s).data() == old(s).data(), final(buf)@.len() == old(buf)@.len(),
+        r is Ok ==> srem(old(s)) >= old(buf)@.len() && final(s).pos() == old(s).pos() + old(buf)@.len()
+            && final(buf)@ == old(s).data().subrange(old(s).pos() as int, (old(s).pos() + old(buf)@.len()) as int),
+        r is Err ==> old(s).pos() <= final(s).pos() <= old(s).pos() + smin(old(buf)@.len() as int, srem(old(s)) as int),
+        srem(old(s)) < old(buf)@.len() ==> r is Err,
+{ unimplemented!() }
+
+#[verifier::external_body]
+pub fn vio_read_u8<S: VStream>(s: &mut S) -> (r: std::io::Result<u8>)
+    requires old(s).wf(),
+    ensures final(s).wf(), final(s).data() == old(s).data(),
+        r is Ok ==> srem(old(s)) >= 1 && final(s).pos() == old(s).pos() + 1 && r->Ok_0 == old(s).data()[old(s).pos() as int],
+        r is Err ==> old(s).pos() <= final(s).pos() <= old(s).pos() + smin(1, srem(old(s)) as int),
+        srem(old(s)) < 1 ==> r is Err,
+{ unimplemented!() }
+
+#[verifier::external_body]
+pub fn vio_read_u32_le<S: VStream>(s: &mut S) -> (r: std::io::Result<u32>)
+    requires old(s).wf(),
+    ensures final(s).wf(), final(s).data() == old(s).data(),
+        r is Ok ==> srem(old(s)) >= 4 && final(s).pos() == old(s).pos() + 4 && r->Ok_0 == le_u32(old(s).data().subrange(old(s).pos() as int, old(s).pos() + 4int)),
+        r is Err ==> old(s).pos() <= final(s).pos() <= old(s).pos() + smin(4, srem(old(s)) as int),
+        srem(old(s)) < 4 ==> r is Err,
+{ unimplemented!() }
+
+#[verifier::external_body]
+pub fn vio_read_u64_le<S: VStream>(s: &mut S) -> (r: std::io::Result<u64>)
+    requires old(s).wf(),
+    ensures final(s).wf(), final(s).data() == old(s).data(),
+        r is Ok ==> srem(old(s)) >= 8 && final(s).pos() == old(s).pos() + 8 && r->Ok_0 == le_u64(old(s).data().subrange(old(s).pos() as int, old(s).pos() + 8int)),
+        r is Err ==> old(s).pos() <= final(s).pos() <= old(s).pos() + smin(8, srem(old(s)) as int),
+        srem(old(s)) < 8 ==> r is Err,
+{ unimplemented!() }
